@@ -491,7 +491,7 @@ PROPS = {
                        "implementation function by function",
     },
     "C10": {
-        "modules": ["Stun.Properties.C10", "Stun.Properties.C10L2", "Stun.Proofs.ClientSync"],
+        "modules": ["Stun.Properties.C10", "Stun.Properties.C10L2", "Stun.Proofs.ClientSync", "Stun.Proofs.ClientL2Acct"],
         "theorems": ["Stun.C10.handler_at_most_once", "Stun.C10.never_started_never_invoked",
                      "Stun.C10.start_error_not_registered", "Stun.C10.start_error_never_registers",
                      "Stun.C10.invoked_xor_pending", "Stun.C10.closed_callback", "Stun.C10.exactly_once_by_close",
@@ -500,6 +500,8 @@ PROPS = {
                      "Stun.C10L2.k1_history_other_start_untouched", "Stun.C10L2.blocked_write_failure_alone",
                      "Stun.C10L2.f12_start_error_after_handler_ran", "Stun.C10L2.start_blocked_failure_alone",
                      "Stun.C10L2.k1b_history", "Stun.C10L2.agent_start_failure_alone", "Stun.C10L2.agent_start_ok_alone",
+                     "Stun.C10L2.l2_handler_at_most_once", "Stun.C10L2.l2_never_started_never_invoked",
+                     "Stun.C10L2.l2_invocation_from_start", "Stun.ClientProofs.run2_spec", "Stun.ClientProofs.step2_spec",
 
                      "Stun.Client.retransmit_split", "Stun.Client.start_split", "Stun.ClientProofs.run_spec", "Stun.ClientProofs.run_eq",
                      "Stun.ClientProofs.callback_spec", "Stun.ClientProofs.retransmit_spec"],
@@ -511,11 +513,12 @@ PROPS = {
                        "error the handler is never invoked' fails on one schedule (known finding F12, theorem + replay)",
     },
     "C11": {
-        "modules": ["Stun.Properties.C11", "Stun.Properties.C10L2"],
+        "modules": ["Stun.Properties.C11", "Stun.Properties.C10L2", "Stun.Proofs.ClientL2Writes", "Stun.Properties.C11L2"],
         "theorems": ["Stun.C11.writes_bit_identical", "Stun.C11.retransmit_guard", "Stun.C11.no_retransmit_before_deadline",
                      "Stun.C11.nextTimeout_formula", "Stun.C11.setRTO_only_later", "Stun.C11.no_retransmit_when_disabled", "Stun.C11.writes_at_most_n_plus_1",
                      "Stun.ClientProofs.run_budget", "Stun.ClientProofs.retransmit_budget", "Stun.ClientProofs.start_budget",
-                     "Stun.C10L2.run2_l1", "Stun.C10L2.f14_write_after_completion"],
+                     "Stun.C10L2.run2_l1", "Stun.C10L2.f14_write_after_completion",
+                     "Stun.C11L2.l2_writes_at_most_n_plus_1", "Stun.ClientProofs.run2_budget"],
         "streams": ["client-hist"], "level": "proof", "predicate": pred_client("C11"),
         "rule": CLIENT_RULE + "; message sizes 20..65535 incl. both sides of the former 2048-byte scratch buffer; the "
                 "caller's message is overwritten after every Start",
